@@ -1,6 +1,6 @@
 #!/opt/veriftools/pyvenv/bin/python
 """Run every claimed check against every seeded change (patched copy of /repo/nmfu.py held in memory; /repo untouched).
-Prints, per seed, which properties raise a VIOLATION / ANALYSIS-ERROR.   usage: run_seeded.py [seed-id ...] [--props C02,C03]"""
+Prints, per seed, which properties raise a VIOLATION / ANALYSIS-ERROR.   usage: run_seeded.py [seed-id ...] [--props=C02,C03] [--write-expected]"""
 import glob, json, os, subprocess, sys, tempfile, importlib, concurrent.futures as cf
 HERE = os.path.dirname(os.path.dirname(os.path.abspath(__file__)))
 sys.path.insert(0, HERE)
@@ -46,13 +46,20 @@ def main():
         props = [c["property_id"] for c in json.load(open(os.path.join(HERE, "MANIFEST.json")))["checks"]]
     seeds = args or sorted(os.path.basename(p) for p in glob.glob(os.path.join(HERE, "seeded", "C*")))
     caught = 0
-    with cf.ProcessPoolExecutor(12) as ex:
+    expected = {}
+    with cf.ProcessPoolExecutor(14) as ex:
         for sid, out in ex.map(run_one, [(s, props) for s in seeds]):
             own = sid.split("-")[0]
             flag = "CAUGHT" if any(v.startswith("VIOLATION") for v in out.values()) else ("AERR  " if out else "missed")
             if flag == "CAUGHT" and not out.get(own, "").startswith("VIOLATION"):
                 flag = "caught-by-other"
             caught += flag.lower().startswith("caught")
+            expected[sid] = sorted(k for k, v in out.items() if v.startswith("VIOLATION"))
             print(f"{sid:8s} {flag}  " + " | ".join(f"{k}: {v}" for k, v in out.items())[:230])
     print(f"caught {caught}/{len(seeds)} (props: {','.join(props)})")
+    if "--write-expected" in sys.argv:
+        if args or len(props) < 20:
+            sys.exit("--write-expected needs all seeds and all properties")
+        json.dump(expected, open(os.path.join(HERE, "seeded", "EXPECTED.json"), "w"), indent=1, sort_keys=True)
+        print("wrote seeded/EXPECTED.json")
 main()
